@@ -44,6 +44,9 @@ struct Lexer<'a> {
     col16: usize,
     byte: usize,
     ext_import: bool,
+    /// byte offsets of `#` characters whose line is a plain comment even though it reads as an import statement
+    /// (import-like lines inside a definition; decided by the parser, see `parse_op_doc`)
+    forced_comment: std::collections::BTreeSet<usize>,
     _src: &'a str,
 }
 
@@ -145,6 +148,12 @@ impl<'a> Lexer<'a> {
 
     fn lex(mut self) -> Result<Vec<LTok>, PErr> {
         let mut out: Vec<LTok> = vec![];
+        self.lex_into(&mut out)?;
+        Ok(out)
+    }
+
+    /// tokens lexed before a lexical error stay in `out`
+    fn lex_into(&mut self, out: &mut Vec<LTok>) -> Result<(), PErr> {
         let mut in_import_line = false;
         loop {
             // ignored
@@ -159,7 +168,7 @@ impl<'a> Lexer<'a> {
                     }
                     Some('#') => {
                         // comment or import
-                        if !in_import_line && {
+                        if !in_import_line && !self.forced_comment.contains(&self.byte) && {
                             let save = self.i;
                             self.i += 1;
                             let r = self.import_ahead();
@@ -181,7 +190,7 @@ impl<'a> Lexer<'a> {
             let (line, col, col16, byte, start_i) = (self.line, self.col, self.col16, self.byte, self.i);
             let Some(c) = self.peek(0) else {
                 out.push(LTok { t: T::Eof, line, col, col16, byte, len_chars: 0, len16: 0, raw: String::new() });
-                return Ok(out);
+                return Ok(());
             };
             let t = match c {
                 '#' => {
@@ -451,6 +460,8 @@ pub fn block_string_value(raw: &str) -> String {
     lines.join("\n")
 }
 
+/// Token table of a text. With `ext_import`, every line that reads as an import statement yields import tokens
+/// (callers that need the parser's view of such lines inside definitions use `parse_op_doc`).
 pub fn lex(src: &str, ext_import: bool) -> Result<Vec<LTok>, PErr> {
     Lexer {
         chars: src.chars().collect(),
@@ -460,9 +471,20 @@ pub fn lex(src: &str, ext_import: bool) -> Result<Vec<LTok>, PErr> {
         col16: 0,
         byte: 0,
         ext_import,
+        forced_comment: Default::default(),
         _src: src,
     }
     .lex()
+}
+
+fn lex_partial(src: &str, forced: &std::collections::BTreeSet<usize>) -> (Vec<LTok>, Option<PErr>) {
+    let mut lx = Lexer { chars: src.chars().collect(), i: 0, line: 0, col: 0, col16: 0, byte: 0, ext_import: true, forced_comment: forced.clone(), _src: src };
+    let mut out = vec![];
+    let e = lx.lex_into(&mut out).err();
+    if e.is_some() {
+        out.push(LTok { t: T::Eof, line: lx.line, col: lx.col, col16: lx.col16, byte: lx.byte, len_chars: 0, len16: 0, raw: String::new() });
+    }
+    (out, e)
 }
 
 // ---------------------------------------------------------------------------
@@ -470,6 +492,8 @@ pub fn lex(src: &str, ext_import: bool) -> Result<Vec<LTok>, PErr> {
 pub struct Parser {
     toks: Vec<LTok>,
     i: usize,
+    /// byte offset of an import-like line met where no definition can start
+    nested_import: std::cell::Cell<Option<usize>>,
 }
 
 type R<X> = Result<X, PErr>;
@@ -483,6 +507,9 @@ impl Parser {
     }
     fn err<X>(&self, msg: &str) -> R<X> {
         let t = &self.toks[self.i];
+        if t.t == T::ImportHash && self.nested_import.get().is_none() {
+            self.nested_import.set(Some(t.byte));
+        }
         Err(PErr { msg: format!("{msg}, found {:?}", t.t), line: t.line, col: t.col })
     }
     fn bump(&mut self) -> T {
@@ -964,22 +991,44 @@ impl Parser {
     }
 }
 
+/// A line that reads as an import statement is one only where a definition can start; inside a definition it is
+/// an ordinary comment. The lexer cannot know, so the parser asks for the text to be lexed again with that line
+/// forced to a comment whenever it meets import tokens elsewhere.
 pub fn parse_op_doc(src: &str) -> R<MOpDoc> {
-    let toks = lex(src, true)?;
-    let mut p = Parser { toks, i: 0 };
-    let mut out = vec![];
-    if matches!(p.peek(), T::Eof) {
-        return p.err("empty document");
+    parse_op_doc_toks(src).map(|x| x.0)
+}
+
+/// the document together with the token table the parser ended up with
+pub fn parse_op_doc_toks(src: &str) -> R<(MOpDoc, Vec<LTok>)> {
+    let mut forced = std::collections::BTreeSet::new();
+    loop {
+        let (toks, lexerr) = lex_partial(src, &forced);
+        let mut p = Parser { toks, i: 0, nested_import: Default::default() };
+        let r = (|| {
+            let mut out = vec![];
+            if matches!(p.peek(), T::Eof) {
+                return p.err("empty document");
+            }
+            while !matches!(p.peek(), T::Eof) {
+                out.push(p.exec_def()?);
+            }
+            Ok(out)
+        })();
+        if let Some(b) = p.nested_import.get() {
+            if forced.insert(b) {
+                continue;
+            }
+        }
+        if let Some(e) = lexerr {
+            return Err(e);
+        }
+        return r.map(|d| (d, p.toks));
     }
-    while !matches!(p.peek(), T::Eof) {
-        out.push(p.exec_def()?);
-    }
-    Ok(out)
 }
 
 pub fn parse_ts_doc(src: &str) -> R<MTsDoc> {
     let toks = lex(src, false)?;
-    let mut p = Parser { toks, i: 0 };
+    let mut p = Parser { toks, i: 0, nested_import: Default::default() };
     let mut out = vec![];
     if matches!(p.peek(), T::Eof) {
         return p.err("empty document");
